@@ -14,15 +14,15 @@ import (
 type stdModel func(ec *evalCtx, call *ast.CallExpr, recv Value, args []Value) Value
 type specModel func(ec *evalCtx, args []Value) Value
 
-var stdModels map[string]stdModel
-var specModels map[string]specModel
+var stdModels = map[string]stdModel{}
+var specModels = map[string]specModel{}
 
 func pure(f specModel) stdModel {
 	return func(ec *evalCtx, call *ast.CallExpr, recv Value, args []Value) Value { return f(ec, args) }
 }
 
 func init() {
-	specModels = map[string]specModel{
+	base := map[string]specModel{
 		"strings.HasPrefix": func(ec *evalCtx, a []Value) Value { return mk("str.prefixof", SBool, scalar(a[1]), scalar(a[0])) },
 		"strings.HasSuffix": func(ec *evalCtx, a []Value) Value { return mk("str.suffixof", SBool, scalar(a[1]), scalar(a[0])) },
 		"strings.Contains":  func(ec *evalCtx, a []Value) Value { return mk("str.contains", SBool, scalar(a[0]), scalar(a[1])) },
@@ -57,8 +57,8 @@ func init() {
 			return id
 		},
 	}
-	stdModels = map[string]stdModel{}
-	for k, v := range specModels {
+	for k, v := range base {
+		specModels[k] = v
 		full := k
 		switch {
 		case len(k) > 5 && k[:5] == "utf8.":
